@@ -1,6 +1,132 @@
 import Infretis.Model.Proto
-open Infretis.Proto
+import Infretis.Model.Config
+open Infretis Infretis.Proto Infretis.Config
 
-def handle (_toks : List String) : String := "bad-op"
+/-
+Requests (one per line):
+  <op> <cfg>      op ∈ check | setup | valid | init | all
+  <cfg> := <interfaces : list int> <workers : int> <moves : list 0/1> <cap : - | int>
+           <lm1 : A | F | int> <quantis : - | 0 | 1>
+           <ensemble_engines : - | list (list str)> <engines : list (str cls ip other)>   ip := - | nat
+           <seed : - | int> <accept_all : - | 0 | 1>
+-/
+
+def showErr : Err → String
+  | .config => "err:config" | .index => "err:index" | .key => "err:key"
+
+def optTok {α : Type} (p : String → Option α) (s : String) : Option (Option α) :=
+  if s = "-" then some none else (p s).map some
+
+def parseBool? (s : String) : Option Bool :=
+  if s = "1" then some true else if s = "0" then some false else none
+
+/-- n lists, each length-prefixed -/
+def takeLists : Nat → List String → Option (List (List String) × List String)
+  | 0, rest => some ([], rest)
+  | k + 1, rest =>
+    match takeList unhexStr rest with
+    | none => none
+    | some (l, rest) =>
+      match takeLists k rest with
+      | none => none
+      | some (ls, rest) => some (l :: ls, rest)
+
+def takeEngines : Nat → List String → Option (List (String × Engine) × List String)
+  | 0, rest => some ([], rest)
+  | k + 1, name :: cls :: ip :: other :: rest =>
+    match unhexStr name, parseNat? cls, optTok parseNat? ip, parseNat? other, takeEngines k rest with
+    | some name, some cls, some ip, some other, some (es, rest) =>
+      some ((name, { cls := cls, inputPath := ip, other := other }) :: es, rest)
+    | _, _, _, _, _ => none
+  | _ + 1, _ => none
+
+def parseLm1 (s : String) : Option Lm1 :=
+  if s = "A" then some .absent else if s = "F" then some .off else (parseInt? s).map .val
+
+def parseCfg (toks : List String) : Option Cfg := do
+  let (intf, rest) ← takeList parseInt? toks
+  match rest with
+  | w :: rest =>
+    let w ← parseInt? w
+    let (mv, rest) ← takeList parseBool? rest
+    match rest with
+    | cap :: lm1 :: q :: rest =>
+      let cap ← optTok parseInt? cap
+      let lm1 ← parseLm1 lm1
+      let q ← optTok parseBool? q
+      let (ee, rest) ←
+        (match rest with
+         | "-" :: rest => some (none, rest)
+         | n :: rest => do
+           let n ← parseNat? n
+           let (ls, rest) ← takeLists n rest
+           pure (some ls, rest)
+         | [] => none : Option (Option (List (List String)) × List String))
+      match rest with
+      | ne :: rest =>
+        let ne ← parseNat? ne
+        let (engs, rest) ← takeEngines ne rest
+        match rest with
+        | [seed, acc] =>
+          let seed ← optTok parseInt? seed
+          let acc ← optTok parseBool? acc
+          pure { interfaces := intf, workers := w, moves := mv, cap := cap, lm1 := lm1, quantis := q,
+                 ensEngines := ee, engines := engs, seed := seed, acceptAll := acc }
+        | _ => none
+      | [] => none
+    | _ => none
+  | [] => none
+
+def showOptBool : Option Bool → String
+  | none => "-" | some true => "1" | some false => "0"
+
+def showLm1 : Lm1 → String
+  | .absent => "A" | .off => "F" | .val x => toString x
+
+def showEE : Option (List (List String)) → String
+  | none => "-"
+  | some ee => showList (fun l => showList hexStr l) ee
+
+/-- the fields the defaults block may touch -/
+def showNorm (c : Cfg) : String :=
+  s!"ee={showEE c.ensEngines} seed={match c.seed with | none => "-" | some s => toString s} " ++
+  s!"quantis={showOptBool c.quantis} lm1={showLm1 c.lm1} acc={showOptBool c.acceptAll}"
+
+def showUnit : Except Err Unit → String
+  | .ok () => "ok" | .error e => showErr e
+
+def showSetup : Except Err Cfg → String
+  | .ok c => "ok " ++ showNorm c
+  | .error e => showErr e
+
+def showEns (e : Ens) : String :=
+  let l := match e.left with | none => "-inf" | some q => showRat q
+  s!"{l},{showRat e.middle},{showRat e.right},{if e.wf then 1 else 0},{if e.startL then "L" else ""}{if e.startR then "R" else ""}"
+
+def showInit : Except Err (List Ens) → String
+  | .ok es => showList showEns es
+  | .error e => showErr e
+
+def handle (toks : List String) : String :=
+  match toks with
+  | op :: rest =>
+    match parseCfg rest with
+    | none => "bad-op"
+    | some c =>
+      if op = "check" then showUnit (check c)
+      else if op = "setup" then showSetup (setupConfig c)
+      else if op = "valid" then (if validB c then "1" else "0")
+      else if op = "init" then
+        (match setupConfig c with
+         | .ok c' => showInit (initEnsembles c')
+         | .error e => showErr e)
+      else if op = "all" then
+        -- check on the raw dict, setup_config, and the property predicate on the normalised dict
+        let v := match normalise c with
+          | .ok c' => if validB c' then "1" else "0"
+          | .error _ => "-"
+        s!"{showUnit (check c)} | {showSetup (setupConfig c)} | {v}"
+      else "bad-op"
+  | [] => "bad-op"
 
 def main : IO Unit := mainWith handle
